@@ -147,7 +147,13 @@ class SubregionsProfile(HeapProfile):
             return {"op": "S.persist", "on": s, "how": rng.choice(["json", "hdf5"]), "restart": rng.random() < 0.4, "out": out}
         r = rng.random()
         inplace = rng.random() < cfg["p_inplace"]
-        if r < 0.15:
+        if r < 0.05 and len(meshes) > 1:
+            # a mesh on the same lattice receives the other's subregion dictionary
+            return {"op": "S.attach_from", "on": s, "src": rng.choice([m for m in meshes if m != s])}
+        if r < 0.08:
+            # a twin on the same geometry (copying translate by zero), target of attach_from
+            return {"op": "translate", "on": s, "v": [0.0] * nd, "inplace": False, "out": out}
+        if r < 0.18:
             return draw_attach(rng, s, mm)
         if r < 0.27:
             return draw_translate(rng, geo, s, mm, inplace, out)
